@@ -29,12 +29,17 @@ const (
 	OpResume // re-acquire the baton after an external (durable) block
 	OpStart  // first point of a thread
 	OpYield  // spin/poll loop iteration: the thread stays enabled but the default choice moves on (fair scheduling)
+	// OpLockWait: second half of RWMutex.Lock when readers were active at the first half: the writer has
+	// announced itself (LockState.Pending: new readers are held back, as in the real RWMutex) and waits
+	// for the active readers to leave.
+	OpLockWait
 )
 
 // LockState is the modelled state of a mutex (embedded in vsync.Mutex / RWMutex).
 type LockState struct {
 	Writer  bool
 	Readers int
+	Pending bool // a writer has announced itself and waits for the active readers (RWMutex writer preference)
 }
 
 type thread struct {
@@ -172,14 +177,18 @@ func (s *Sched) Point(kind OpKind, label string, lock *LockState) {
 		return
 	}
 	t, fresh := s.self()
+	fkind := kind // harness filters see the second half of a writer Lock as a Lock
+	if kind == OpLockWait {
+		fkind = OpLock
+	}
 	if !fresh && s.holder.Load() == t {
-		silent := kind == OpResume || (kind != OpYield && s.Filter != nil && !s.Filter(kind, label))
+		silent := kind == OpResume || (kind != OpYield && s.Filter != nil && !s.Filter(fkind, label))
 		if silent && lockFree(kind, lock) {
 			return
 		}
 	}
 	t.kind, t.label, t.lock = kind, label, lock
-	t.silent = kind == OpResume || (kind != OpYield && kind != OpStart && s.Filter != nil && !s.Filter(kind, label))
+	t.silent = kind == OpResume || (kind != OpYield && kind != OpStart && s.Filter != nil && !s.Filter(fkind, label))
 	atomic.StoreInt32(&t.state, stParked)
 	select {
 	case s.arrive <- struct{}{}:
@@ -191,13 +200,18 @@ func (s *Sched) Point(kind OpKind, label string, lock *LockState) {
 }
 
 func lockFree(kind OpKind, l *LockState) bool {
-	if l == nil || (kind != OpLock && kind != OpRLock) {
+	if l == nil || (kind != OpLock && kind != OpRLock && kind != OpLockWait) {
 		return true
 	}
-	if kind == OpLock {
-		return !l.Writer && l.Readers == 0
+	switch kind {
+	case OpLock:
+		// first half of Lock = acquire the writers' mutex of the real RWMutex and announce: possible while
+		// readers are active (a plain Mutex never has readers or a pending writer)
+		return !l.Writer && !l.Pending
+	case OpLockWait:
+		return l.Readers == 0
 	}
-	return !l.Writer
+	return !l.Writer && !l.Pending
 }
 
 func (s *Sched) enabled() []*thread {
@@ -207,7 +221,7 @@ func (s *Sched) enabled() []*thread {
 		if atomic.LoadInt32(&t.state) != stParked {
 			continue
 		}
-		if (t.kind == OpLock || t.kind == OpRLock) && !lockFree(t.kind, t.lock) {
+		if (t.kind == OpLock || t.kind == OpRLock || t.kind == OpLockWait) && !lockFree(t.kind, t.lock) {
 			continue
 		}
 		out = append(out, t)
